@@ -5,6 +5,10 @@ C47 driver: the lines of a Paje trace file (one per protocol line, timestamps al
 check.py: `begin <id> =>`, `L <code> <fields...> =>`) are fed to the well-formedness automaton `wfStep`.
 `ok` = accepted; `MONFAIL ... key=<class>` = the line breaks one of the four clauses.  After a failure the automaton goes
 on (the offending line is applied with the clock rewound) so that every line of the trace is judged.
+Push / pop balance per container: a PajeDestroyContainer of a container that still has a pushed state (`balancedOn`, read on
+the trace by `destroy_balanced_spec`) is `MONFAIL key=state-left-pushed container=<alias> pushed=<n>` (this verdict wins over
+another failure of the same line), and `end <id> =>` (sent by check.py after the last line of a trace) reports the created,
+never destroyed containers that still have a pushed state.  check.py names the class after what the program did.
 -/
 open SgVerif.Proto
 namespace SgVerif.C47
@@ -41,9 +45,8 @@ def whyS : Why → String
   | .undeclaredContainer => "undeclared-container" | .timeDecreases => "time-decreases"
   | .useAfterDestroy => "use-after-destroy" | .popEmpty => "pop-without-push" | .duplicate => "duplicate-declaration"
 
-def judge (s : DS) (q _a : List String) : DS × Verdict :=
+def judgeLine (s : DS) (q : List String) : DS × Verdict :=
   match q with
-  | "begin" :: _ => ({}, .ok)
   | "L" :: toks =>
     match parseLine toks with
     | none => (s, .bad)
@@ -64,6 +67,23 @@ def judge (s : DS) (q _a : List String) : DS × Verdict :=
           | .error _ => s.wf
         ({ s with wf := wf1 }, .monfail s!"key=time-decreases/{cls} clock={s.wf.now} (set by a line of kind {s.lastKind})")
       | .error e => (s, .monfail s!"key={whyS e}")
+  | _ => (s, .bad)
+
+def judge (s : DS) (q _a : List String) : DS × Verdict :=
+  match q with
+  | "begin" :: _ => ({}, .ok)
+  | "end" :: _ =>
+    let open_ := (s.wf.conts.filter (fun c => !s.wf.dead.contains c)).filter (fun c => !balancedOn s.wf.depth c)
+    match open_ with
+    | [] => (s, .ok)
+    | c :: _ => (s, .monfail s!"key=state-left-pushed container={c} pushed={pushedOn s.wf.depth c} at-end-of-trace")
+  | "L" :: toks =>
+    let r := judgeLine s q
+    match parseLine toks with
+    | some (_, .destroyContainer _ _ c) =>
+      if balancedOn s.wf.depth c then r
+      else (r.1, .monfail s!"key=state-left-pushed container={c} pushed={pushedOn s.wf.depth c}")
+    | _ => r
   | _ => (s, .bad)
 
 end SgVerif.C47
